@@ -43,7 +43,7 @@ InDomain(st, c) ==
     CASE c.op \in {"get", "set"}       -> st.kind = "int" /\ c.i < Items(st)
       [] c.op \in {"bit", "set_bit"}   -> st.kind = "raw" /\ c.i < Len(st.bits)
       [] c.op \in {"int", "set_int"}   -> st.kind = "raw" /\ c.i + c.w <= Len(st.bits)
-      [] c.op \in {"push", "pop", "resize", "pack", "extend", "iter", "into_iter"} -> st.kind = "int"
+      [] c.op \in {"push", "pop", "resize", "pack", "extend", "iter", "into_iter", "get_or"} -> st.kind = "int"
       [] c.op \in {"push_bit", "pop_bit", "push_int", "pop_int", "resize_bits", "complement"} -> st.kind = "raw"
       [] OTHER -> TRUE
 
@@ -82,10 +82,15 @@ Step(st, c) ==
       [] c.op = "count_ones"  -> [st |-> st, res |-> Val({Cardinality(OnesOf(bits))})]
       [] c.op = "len"         -> [st |-> st, res |-> Val({IF st.kind = "int" THEN n \div w ELSE n})]
       [] c.op = "width"       -> [st |-> st, res |-> Val({w})]
+      [] c.op = "is_empty"    -> [st |-> st, res |-> Val(BoolSet(n = 0))]
+      \* get_or is total: the item, or the default when the index is not valid (a negative index stands for a huge one)
+      [] c.op = "get_or"      -> [st |-> st, res |-> Val(IF c.i >= 0 /\ c.i < n \div w THEN ValueAt(bits, c.i * w, w) ELSE {b \in c.v : b < 64})]
 
 \* Constructors
 NewInt(w) == [kind |-> "int", width |-> w, bits |-> << >>]
 WithLenInt(n, w, v) == [kind |-> "int", width |-> w, bits |-> [k \in 1..(n * w) |-> Field(v, w)[((k - 1) % w) + 1]]]
+\* From<Vec<T>> / FromIterator<T>: the width of the item type, each item in full
+FromItems(w, vs) == [kind |-> "int", width |-> w, bits |-> FoldLeft(LAMBDA acc, v : acc \o Field(v, w), << >>, vs)]
 NewRaw == [kind |-> "raw", width |-> 0, bits |-> << >>]
 WithLenRaw(n, b) == [kind |-> "raw", width |-> 0, bits |-> Repeat(b, n)]
 
